@@ -76,7 +76,9 @@ PROPS = {
     'C09': {'level': 'model_checking', 'mc': [MC_CONC_STRICT], 'families': [fam('conc', 'c09', 48, 800)], 'trace': COLUMN_TRACE, 'assumptions': []},
     'C11': seq_prop('c11', 100, 2000, mc=[MC_CONC_STRICT, MC_CONC_ASBUILT], more=[fam('conc', 'c11', 32, 500)]),
     'C12': seq_prop('c12', 150, 2500, mc=[MC_KEYS_STRICT, MC_KEYS_ASBUILT], more=[fam('conc', 'c12', 24, 400)]),
-    'C13': {'level': 'model_checking', 'mc': [MC_SNAP], 'families': [fam('trunc', 'c13', 8, 16, shards=8), fam('trunc', 'c13t', 0, 8, shards=8)], 'trace': COLUMN_TRACE, 'assumptions': []},
+    'C13': {'level': 'model_checking', 'mc': [MC_SNAP], 'families': [fam('trunc', 'c13', 8, 16, shards=8), fam('trunc', 'c13t', 0, 8, shards=8),
+                         fam('truncbig', 'some', 4, 0, shards=4, trace={'module': 'PrefixTrace', 'cfg': 'PrefixTrace.cfg'}),
+                         fam('truncbig', 'all', 0, 8, shards=8, trace={'module': 'PrefixTrace', 'cfg': 'PrefixTrace.cfg'})], 'trace': COLUMN_TRACE, 'assumptions': []},
     'C14': {'level': 'model_checking', 'mc': [MC_SNAP_FAIL], 'families': [fam('fault', 'c14', 12, 12, shards=6), fam('fault', 'c14t', 0, 6, shards=6)], 'trace': COLUMN_TRACE, 'assumptions': []},
     'C15': seq_prop('c15', 100, 2000, mc=[MC_CONC_STRICT], more=[fam('conc', 'c15', 32, 500)]),
     'C16': seq_prop('c16', 150, 2500, mc=[MC_STORE_STRICT]),
